@@ -48,7 +48,7 @@ def typestate(R: Report, rule: str, f, engine, results, subject: str) -> None:
             if ev is None or ev.kind != "raise":
                 continue
             tail = flat_tail(d.events)
-            construct = raise_key(ev) + guard_of(tail, ev)
+            construct = raise_key(ev)
             if d.dirty:
                 R.fail(
                     rule, f, ev.where(), f"{construct} after {describe_mut(d.dirty_at, ev)}",
